@@ -53,6 +53,7 @@ type callSpec struct {
 type txRec struct {
 	invSeq, seq int // event seq when WriteTo was entered / completed
 	t           time.Duration
+	doneT       time.Duration // when the WriteTo returned (t + injected write delay)
 	sameBytes   bool
 	destOK      bool
 	failed      bool
@@ -120,6 +121,7 @@ type ccCfg struct {
 	logger    bool
 	readErrAt time.Duration // <0: none
 	closeErr  bool
+	slowWrite bool // caller 0's WriteTo calls may take virtual time (retry scenario, no cancellation)
 
 	// peer behaviour
 	replyCount   []int // weights for 0,1,2,... replies per transmission
@@ -438,7 +440,14 @@ func (st *ccState) onWrite(b []byte, to net.Addr) {
 		tx.destOK = ua.IP.Equal(d.IP) && ua.Port == d.Port
 	}
 	tx.invSeq = s.Seq()
-	tx.seq = s.Ev("tx", c.id, int64(len(c.txs)+1), fmt.Sprintf("same=%v dest=%v", tx.sameBytes, tx.destOK), nil)
+	tx.doneT = tx.t
+	if cfg.slowWrite && c.caller == 0 && st.tape.Coin(1, 2) {
+		d := pick(st.tape, cfg.T/4, cfg.T, cfg.T*7/2)
+		st.conn.NextWriteDelay = d
+		tx.doneT = tx.t + d
+		s.Fault("slow-write")
+	}
+	tx.seq = s.Ev("tx", c.id, int64(len(c.txs)+1), fmt.Sprintf("same=%v dest=%v writes-for=%v", tx.sameBytes, tx.destOK, tx.doneT-tx.t), nil)
 	c.txs = append(c.txs, tx)
 	try := 0
 	for _, x := range c.txs {
